@@ -65,6 +65,7 @@ type contract struct {
 	HeapWF    bool // include the heap well-formedness axioms in this function's queries
 	Defines   cExpr
 	DefinesSrc string
+	DefinesLayer string
 	Names     []string // optional parameter names (receiver first)
 	Clauses   []*clause
 	Safety    []string // property ids to which nopanic obligations are attributed
@@ -380,6 +381,7 @@ func (db *contractDB) loadContractFile(path, pkgPath string) error {
 					return fail("%v", err)
 				}
 				cur.Defines = e
+				cur.DefinesLayer = layer
 				cur.DefinesSrc = rest
 				continue
 			case "heapwf":
